@@ -36,6 +36,17 @@ def check_c10(case, ctx):
     d2 = pd(cfg, [[teams[k][j] for j in pp[k]] for k in perm], ctx)
     if abs(d2 - d) > 1e-12:
         raise Violation("permutation", f"{kind}: {d!r} vs {d2!r} when teams are listed as {perm} and players as {pp}")
+    # ids and names are not part of a rating's value: the same teams with every rating carrying one shared id give the same number
+    m_same = mk_model(cfg)
+    objs = mk_teams(m_same, teams)
+    for t in objs:
+        for pl in t:
+            pl.id = "shared-id"
+            pl.name = "clone"
+    ctx.called()
+    d_same = guarded(m_same.predict_draw, objs, what="predict_draw (shared ids)")
+    if d_same != d:
+        raise Violation("depends-on-ids", f"{kind}: predict_draw = {d!r}, but {d_same!r} when all ratings carry the same id (clones of one template rating)")
     tot = [math.fsum(p[0] for p in t) for t in teams]
     if n == 2:
         # widen the gap: add delta to a member of the stronger team (or subtract from the weaker one)
